@@ -12,6 +12,11 @@ transport error) and every reachable state / accepted event, i.e. every finite e
 import KafkaVerif.Lemmas.WriterCompl
 import KafkaVerif.Lemmas.WriterMsgs
 import KafkaVerif.Lemmas.WriterLogJournal
+import KafkaVerif.Lemmas.WriterProgress
+import KafkaVerif.Lemmas.WriterQuiesce
+import KafkaVerif.Lemmas.WriterCopies
+import KafkaVerif.Lemmas.WriterMsgCount
+import KafkaVerif.Lemmas.RecordWriter
 import KafkaVerif.Gen.WriterConsts
 
 namespace KV.C01
@@ -234,7 +239,7 @@ theorem detach_once (cfg : Cfg) (s s' : State) (pw b : Nat) (why : Why) (size : 
   repeat' split at hs
   all_goals (first | (cases hs; done) | skip)
   rename_i _ P hP _ B hB hg
-  obtain ⟨hc, -, hd, hw⟩ := hg
+  obtain ⟨hc, -, hd, hw, -⟩ := hg
   cases hs
   refine ⟨P, B, hP, hB, hc, hd, ?_, { B with detached := some why }, by simp, rfl⟩
   intro h; subst h; simpa [whyOk] using hw
@@ -324,6 +329,196 @@ theorem log_is_applied_journal (cfg : Cfg) (s : State) (hr : Reachable cfg s) (t
     (s.log tp).map (·.msg) =
       (s.journal.filter (fun j => j.out.applied && (j.tp == tp))).flatMap (fun j => batchMsgs s.batches j.batch) :=
   (invLogJ cfg s hr).logJournal tp
+
+/-- a produce request of a reachable state carries at least one message (C08.produce_nonempty, restated here for the
+compositions below) -/
+theorem produce_request_nonempty (cfg : Cfg) (s s' : State) (hr : Reachable cfg s) (pw : Nat) (tp : TP) (msgs : List Msg) (out : BrOut)
+    (hs : step cfg s (.produce pw tp msgs out) = some s') : msgs ≠ [] := by
+  have hA := invAck cfg s hr
+  have hF := invFresh cfg s hr
+  simp only [step, stepProduce] at hs
+  repeat' split at hs
+  all_goals (first | (cases hs; done) | skip)
+  rename_i _ P hP _ b k hsend _ B hB hg
+  obtain ⟨-, -, -, hm, -⟩ := hg
+  have hdet := hA.sentDet pw P hP b (sender_mem_sent (by rw [hsend]; rfl)) B hB
+  have := hF.detNonempty b B hB hdet
+  intro he
+  rw [← hm] at he
+  exact this (List.map_eq_nil_iff.mp he)
+
+/-- **produce_on_the_wire** — the Writer LTS composed with the record-batch writer model of C05
+(`protocol/record_v2.go writeToVersion2`, the encoder the Transport uses for produce v3+): for every produce event of
+every reachable state and every assignment `payload` of contents (time, key, value, headers) to the messages, the
+bytes written for that request are one well-formed v2 batch which the independent decoder of Spec/RecordBatch accepts
+and which carries exactly the batch's messages — that many, in batch order, contents untouched, millisecond
+timestamps.  So "what the Writer hands to produce" and "what is on the wire" are one statement: the records the
+broker appends are the batch the theorems above speak about.  (Uncompressed and CreateTime — the attributes a producer
+sets — as C05's writer theorem; the request is never empty: `produce_nonempty`.) -/
+theorem produce_on_the_wire (cfg : Cfg) (s s' : State) (hr : Reachable cfg s) (pw : Nat) (tp : TP) (msgs : List Msg) (out : BrOut)
+    (hs : step cfg s (.produce pw tp msgs out) = some s')
+    (payload : Msg → Model.RecordWriter.PRec) (crc : Bytes → Nat) (hcrc : ∀ b, crc b < RW.M32) (attrs now : Int)
+    (hwf : (Model.RecordWriter.frameOfV2 attrs now (msgs.map payload)).WF) (hcodec : Spec.RB.codecOf attrs = 0)
+    (hlog : Spec.RB.logAppend attrs = false) :
+    ∃ bytes f, Model.RecordWriter.writeV2 crc attrs now (msgs.map payload) = some bytes ∧
+      Spec.RB.readFrame crc bytes = some (f, []) ∧ f.count = msgs.length ∧
+      Spec.RB.flattenEntry ⟨crc, crc⟩ (fun _ _ => none) (.batch f) =
+        some (Spec.RB.isControl attrs,
+          Model.RecordWriter.expected ((msgs.map payload).map (Model.RecordWriter.effTime now)) (msgs.map payload)) := by
+  have hne : msgs ≠ [] := produce_request_nonempty cfg s s' hr pw tp msgs out hs
+  have hne' : msgs.map payload ≠ [] := fun h => hne (List.map_eq_nil_iff.mp h)
+  obtain ⟨bytes, f, h1, h2, -, h4, -, h6⟩ := Model.RecordWriter.writeV2_spec crc hcrc attrs now (msgs.map payload) hne' hwf hcodec hlog
+  exact ⟨bytes, f, h1, h2, by rw [h4, List.length_map], h6⟩
+
+/-- **produce_on_the_wire_compressed** — the same composition for a Writer with `Compression` set (C05's
+`writeV2C_spec`): the batch's records are compressed as one payload with the configured codec `comp`; for every
+decompressor `dec` that inverts it the independent decoder recovers exactly the batch's messages, in order — compression
+passes the batch through untouched, whatever the codec. -/
+theorem produce_on_the_wire_compressed (cfg : Cfg) (s s' : State) (hr : Reachable cfg s) (pw : Nat) (tp : TP) (msgs : List Msg)
+    (out : BrOut) (hs : step cfg s (.produce pw tp msgs out) = some s')
+    (payload : Msg → Model.RecordWriter.PRec) (crc : Bytes → Nat) (hcrc : ∀ b, crc b < RW.M32)
+    (comp : Bytes → Bytes) (dec : Int → Bytes → Option Bytes) (attrs now : Int)
+    (hwf : (Model.RecordWriter.frameOfV2C comp attrs now (msgs.map payload)).WF) (hcodec : Spec.RB.codecOf attrs ≠ 0)
+    (hlog : Spec.RB.logAppend attrs = false) (hdec : ∀ p, dec (Spec.RB.codecOf attrs) (comp p) = some p) :
+    ∃ bytes f, Model.RecordWriter.writeV2C crc comp attrs now (msgs.map payload) = some bytes ∧
+      Spec.RB.readFrame crc bytes = some (f, []) ∧ f.count = msgs.length ∧
+      Spec.RB.flattenEntry ⟨crc, crc⟩ dec (.batch f) =
+        some (Spec.RB.isControl attrs,
+          Model.RecordWriter.expected ((msgs.map payload).map (Model.RecordWriter.effTime now)) (msgs.map payload)) := by
+  have hne : msgs ≠ [] := produce_request_nonempty cfg s s' hr pw tp msgs out hs
+  have hne' : msgs.map payload ≠ [] := fun h => hne (List.map_eq_nil_iff.mp h)
+  obtain ⟨bytes, f, h1, h2, -, h4, -, h6⟩ :=
+    Model.RecordWriter.writeV2C_spec crc hcrc comp dec attrs now (msgs.map payload) hne' hwf hcodec hlog hdec
+  exact ⟨bytes, f, h1, h2, by rw [h4, List.length_map], h6⟩
+
+/-- **return_enabled_when_batches_done** — a synchronous caller is never stuck once its batches are completed: when
+every batch holding a message of the call has its final result, WriteMessages' return is enabled — with nil if all
+results are nil, with a WriteErrors of the right length otherwise.  (Together with C08's `accepted_message_completes`:
+the batches complete by internal events alone, then the call can return; no other call and no Close is needed.) -/
+theorem return_enabled_when_batches_done (cfg : Cfg) (s : State) (c : Nat) (C : Call) (hC : s.calls c = some C)
+    (hph : C.phase = .batched) (hsync : cfg.async = false)
+    (hdone : ∀ i, i < C.msgs.length → ∃ code, batchDone s (C.place i) = some code) :
+    ∃ r, (step cfg s (.ret c r)).isSome = true ∧ (r = .ok ∨ ∃ codes, r = .werr codes ∧ codes.length = C.msgs.length) := by
+  by_cases hall : (List.range C.msgs.length).all (fun i => batchDone s (C.place i) == some 0) = true
+  · refine ⟨.ok, ?_, Or.inl rfl⟩
+    simp only [step, stepRet, hC]
+    rw [if_pos ⟨hsync, hph, hall⟩]
+    rfl
+  · let codes : List Code := (List.range C.msgs.length).map (fun i => (batchDone s (C.place i)).getD 0)
+    have hlen : codes.length = C.msgs.length := by simp [codes]
+    have hget : ∀ i, i < C.msgs.length → codes[i]? = batchDone s (C.place i) := by
+      intro i hi
+      obtain ⟨code, hc⟩ := hdone i hi
+      simp [codes, hi, hc]
+    have h1 : (List.range C.msgs.length).all (fun i => batchDone s (C.place i) == codes[i]?) = true := by
+      rw [List.all_eq_true]
+      intro i hi
+      rw [hget i (List.mem_range.mp hi)]
+      simp
+    have h2 : codes.any (· != 0) = true := by
+      rw [List.all_eq_true] at hall
+      have : ∃ i, i ∈ List.range C.msgs.length ∧ ¬ ((batchDone s (C.place i) == some 0) = true) := by
+        apply Classical.byContradiction
+        intro hno
+        apply hall
+        intro i hi
+        apply Classical.byContradiction
+        intro hne
+        exact hno ⟨i, hi, hne⟩
+      obtain ⟨i, hi, hne⟩ := this
+      have hi' := List.mem_range.mp hi
+      obtain ⟨code, hc⟩ := hdone i hi'
+      rw [List.any_eq_true]
+      refine ⟨code, ?_, ?_⟩
+      · have := hget i hi'
+        rw [hc] at this
+        exact List.mem_of_getElem? this
+      · rw [hc] at hne
+        simpa using hne
+    refine ⟨.werr codes, ?_, Or.inr ⟨codes, rfl, hlen⟩⟩
+    simp only [step, stepRet, hC]
+    rw [if_pos ⟨hsync, hph, hlen, h1, h2⟩]
+    rfl
+
+/-- **sync_call_returns_without_further_input** — a synchronous WriteMessages call that has queued its messages gets
+its answer from the writer alone: from every reachable state in which no call is inside batchMessages there is a
+continuation of internal events only (timers, queues, senders, broker answers — no other WriteMessages step, no Close)
+after which the call's return is enabled, with nil or with a WriteErrors of the call's length.  What the answer then
+says is `ack_exact` / `werr_exact`. -/
+theorem sync_call_returns_without_further_input (cfg : Cfg) (hmax : 1 ≤ cfg.maxAttempts) (s : State) (hr : Reachable cfg s)
+    (hlock : s.wlock.isCall = false) (c : Nat) (C : Call) (hC : s.calls c = some C) (hph : C.phase = .batched)
+    (hsync : cfg.async = false) :
+    ∃ es s' r, run cfg s es = some s' ∧ es.all Event.internal = true ∧ (step cfg s' (.ret c r)).isSome = true ∧
+      (r = .ok ∨ ∃ codes, r = .werr codes ∧ codes.length = C.msgs.length) := by
+  have hfresh : s.fresh = none := by
+    cases hf : s.fresh with
+    | none => rfl
+    | some b =>
+      have := (invFresh cfg s hr).freshLock (by rw [hf]; rfl)
+      rw [hlock] at this; cases this
+  obtain ⟨es, s', hrun, hint, hc, -, hall⟩ := drains cfg hmax s hr hfresh
+  have hr' := reachable_run hr hrun
+  have hC' : s'.calls c = some C := by rw [hc]; exact hC
+  have hdone : ∀ i, i < C.msgs.length → ∃ code, batchDone s' (C.place i) = some code := by
+    intro i hi
+    obtain ⟨b, hb⟩ := placedAll_elim (invQueued cfg s' hr' c C hC' (Or.inl hph)) i hi
+    obtain ⟨B, hB, -, -⟩ := (invPlace cfg s' hr').placed c C hC' i b hb
+    obtain ⟨code, hcode⟩ := hall b B hB
+    exact ⟨code, by simp [batchDone, hb, hB, hcode]⟩
+  obtain ⟨r, hen, hr2⟩ := return_enabled_when_batches_done cfg s' c C hC' hph hsync hdone
+  exact ⟨es, s', r, hrun, hint, hen, hr2⟩
+
+/-- **copies_bounded** — bounded duplication: the broker applies at most MaxAttempts attempts of a batch, so each
+message has at most MaxAttempts copies in the log of its partition (`dups_only_after_lost_ack` says when there is
+more than one). -/
+theorem copies_bounded (cfg : Cfg) (hmax : 1 ≤ cfg.maxAttempts) (s : State) (hr : Reachable cfg s) (b : Nat) (B : Batch)
+    (hB : s.batches b = some B) :
+    B.napplied ≤ cfg.maxAttempts ∧
+      ((s.log B.tp).filter (fun e => e.batch == b)).length ≤ cfg.maxAttempts * B.msgs.length := by
+  have h1 := (invCopies cfg hmax s hr).bound b B hB
+  refine ⟨h1, ?_⟩
+  rw [(invJournal cfg s hr).logCount b B hB]
+  exact Nat.mul_le_mul_right _ h1
+
+/-- **copies_per_message** — for every message of every batch: the number of entries of the partition log that
+carry it is the number of attempts of its batch the broker applied; that number is at most MaxAttempts, and at least 1
+once the batch is acknowledged. -/
+theorem copies_per_message (cfg : Cfg) (hmax : 1 ≤ cfg.maxAttempts) (s : State) (hr : Reachable cfg s) (b : Nat) (B : Batch)
+    (hB : s.batches b = some B) (m : BMsg) (hm : m ∈ B.msgs) :
+    (s.log B.tp).countP (fun e => e.msg == m.msg) = B.napplied ∧ B.napplied ≤ cfg.maxAttempts ∧
+      (B.acked = true → 1 ≤ B.napplied) := by
+  refine ⟨invMsgCount cfg s hr b B hB m hm, (invCopies cfg hmax s hr).bound b B hB, ?_⟩
+  intro hack
+  have := (invJournal cfg s hr).counts b B hB
+  rw [hack] at this
+  simp only [if_true] at this
+  rw [this]; exact Nat.le_add_left _ _
+
+/-- **ok_means_at_least_once_at_most_maxAttempts** — when a synchronous WriteMessages call returns nil, every message
+of the call stands in the log of the topic-partition the balancer chose for it at least once and at most MaxAttempts
+times (more than once only after lost acknowledgements: `dups_only_after_lost_ack`; nowhere else: `no_foreign_partition`). -/
+theorem ok_means_at_least_once_at_most_maxAttempts (cfg : Cfg) (hmax : 1 ≤ cfg.maxAttempts) (s s' : State)
+    (hr : Reachable cfg s) (c : Nat) (hs : step cfg s (.ret c .ok) = some s') :
+    ∃ C, s.calls c = some C ∧ ∀ i, i < C.msgs.length → ∃ tp, C.assign[i]? = some tp ∧
+      1 ≤ (s.log tp).countP (fun e => e.msg == (c, i)) ∧ (s.log tp).countP (fun e => e.msg == (c, i)) ≤ cfg.maxAttempts := by
+  obtain ⟨C, hC, -, hall⟩ := ack_exact cfg s s' hr c hs
+  refine ⟨C, hC, ?_⟩
+  intro i hi
+  obtain ⟨b, B, -, hB, hack, hasg, ⟨m, hm, hmm⟩, -⟩ := hall i hi
+  obtain ⟨h1, h2, h3⟩ := copies_per_message cfg hmax s hr b B hB m hm
+  rw [hmm] at h1
+  refine ⟨B.tp, hasg, ?_, ?_⟩
+  · rw [h1]; exact h3 hack
+  · rw [h1]; exact h2
+
+/-- **no_copy_before_sending** — a batch that is neither completed nor with the sender goroutine of its partition
+(still attached, or waiting in the queue) has no entry in any log yet: nothing reaches the broker except through the
+sender's attempts. -/
+theorem no_copy_before_sending (cfg : Cfg) (hmax : 1 ≤ cfg.maxAttempts) (s : State) (hr : Reachable cfg s) (b : Nat) (B : Batch)
+    (hB : s.batches b = some B) (hd : B.done = none) (hun : ∀ P, s.pws B.pw = some P → P.sender.batch? ≠ some b) :
+    ((s.log B.tp).filter (fun e => e.batch == b)).length = 0 := by
+  rw [(invJournal cfg s hr).logCount b B hB, (invCopies cfg hmax s hr).unheld b B hB hun hd]
+  exact Nat.zero_mul _
 
 /-- **acked_has_journal_entry** — "acknowledged" is the broker's own record: a batch counts as acknowledged exactly
 when the journal holds an applied-and-acknowledged decision for it on its topic-partition. -/
